@@ -5,13 +5,29 @@ import FontcProofs.FeatVarsFinal
 
 namespace Fontc.FeatVars
 
-theorem popcount_zero : popcount 0 = 0 := by unfold popcount; simp
-theorem popcount_eq (a : Nat) (h : a ≠ 0) : popcount a = a % 2 + popcount (a / 2) := by
-  rw [popcount]; simp [h]
+theorem popcountAux_fuel : ∀ f m, m ≤ f → popcountAux f m = popcountAux m m := by
+  intro f
+  induction f using Nat.strongRecOn with
+  | _ f ih =>
+    intro m hm
+    cases f with
+    | zero => have : m = 0 := by omega
+              subst this; rfl
+    | succ f' =>
+      cases m with
+      | zero => simp [popcountAux]
+      | succ m' =>
+        simp only [popcountAux, Nat.add_one_ne_zero, if_false]
+        rw [ih f' (by omega) ((m' + 1) / 2) (by omega), ih m' (by omega) ((m' + 1) / 2) (by omega)]
+
+theorem popcount_zero : popcount 0 = 0 := rfl
 theorem popcount_step (a : Nat) : popcount a = a % 2 + popcount (a / 2) := by
-  by_cases h : a = 0
-  · subst h; simp [popcount_zero]
-  · exact popcount_eq a h
+  unfold popcount
+  cases a with
+  | zero => rfl
+  | succ a' =>
+    simp only [popcountAux, Nat.add_one_ne_zero, if_false]
+    rw [popcountAux_fuel a' ((a' + 1) / 2) (by omega)]
 
 /-- `popcount` counts the set bits below any bound on the width -/
 theorem popcount_eq_filter (N : Nat) : ∀ a, a < 2 ^ N → popcount a = ((List.range N).filter a.testBit).length := by
